@@ -11,7 +11,8 @@ LEVEL = "exploration"
 TECHNIQUE = "property-based testing (Hypothesis): coverage-template generators aimed at the 256-bp bin / 32-kb / " \
             "1024-read splitting logic, both memory modes; three-valued accounting oracle from BAM flags only"
 RULE = ("Hypothesis-generated deep loci (pile-ups joined by bridge reads, valleys of depth 1-3, unspliced tails ending "
-        "on bin boundaries, short reads wholly inside the first/last bin of a sub-region) and ordinary multi-locus "
+        "on bin boundaries, short reads wholly inside the first/last bin of a sub-region; sparsely covered genes longer "
+        "than two splitting windows whose full-length reads are processed in >= 3 regions) and ordinary multi-locus "
         "scenarios with all flag/MAPQ combinations x {default, --high_memory} x {annotation, none} x --no_secondary / "
         "--min_mapq. Non-trivial = the cluster was processed in >= 2 regions (from --debug log, used only to "
         "classify) and a read lies within 256 bp of a region edge, or the flag stage contains secondary + "
@@ -127,9 +128,13 @@ def deep_scenarios(draw):
     rnd = draw(st.randoms(use_true_random=True))
     src = S.RndSrc(rnd)
     annotated = draw(st.booleans())
-    if draw(st.sampled_from([0, 0, 1])):
+    tmpl = draw(st.sampled_from(["pileups", "pileups", "plateau", "long_gene"]))
+    if tmpl == "plateau":
         sc = S.gen_plateau_locus(src, with_annotation=annotated)
         sc["template"] = "plateau"
+    elif tmpl == "long_gene":
+        sc = S.gen_long_gene_locus(src, with_annotation=annotated)
+        sc["template"] = "long_gene"
     else:
         sc = S.gen_deep_locus(src, with_annotation=annotated)
         sc["template"] = "pileups"
